@@ -248,6 +248,36 @@ fn run_inner(sc: &J) -> Result<Option<String>, String> {
                 Err(e) => Ok(Some(format!("generic decoder rejects the serde bytes {:02x?}: {e}", out))),
             }
         }
+        // C08: value (datum under writer schema) resolved against reader schema: Ok(v) must validate against the reader
+        // schema and resolving again must change nothing
+        "resolve_validates" => {
+            let ws = Schema::parse_str(sc["writer"].as_str().ok_or("writer")?).map_err(|e| e.to_string())?;
+            let rs = Schema::parse_str(sc["reader"].as_str().ok_or("reader")?).map_err(|e| e.to_string())?;
+            let bytes = jhex(sc, "datum");
+            let value = apache_avro::from_avro_datum(&ws, &mut &bytes[..], None).map_err(|e| e.to_string())?;
+            match value.clone().resolve(&rs) {
+                Ok(v) => {
+                    if !v.validate(&rs) { return Ok(Some(format!("resolve({value:?}) = Ok({v:?}) which does not validate against the reader schema"))); }
+                    match v.clone().resolve(&rs) { Ok(v2) if v2 == v => Ok(None), other => Ok(Some(format!("resolving the resolved value changes it: {other:?}"))) }
+                }
+                Err(_) => Ok(None),
+            }
+        }
+        // C13: serde path straight to a faulty sink (short writes / injected error): exact bytes or an error
+        "serde_faulty_sink" => {
+            let schema = Schema::parse_str(sc["schema"].as_str().ok_or("schema")?).map_err(|e| e.to_string())?;
+            let value = sc["value"].clone();
+            let accept = sc["accept"].as_u64().map(|x| x as usize).unwrap_or(1);
+            let fail_at = sc["fail_at"].as_u64().map(|x| x as usize);
+            let w = apache_avro::writer::datum::GenericDatumWriter::builder(&schema).build().map_err(|e| e.to_string())?;
+            let mut good = Vec::new();
+            let n_good = w.write_ser(&mut good, &value).map_err(|e| e.to_string())?;
+            let mut sink = FaultySink { data: Vec::new(), accept, fail_at, calls: 0 };
+            match w.write_ser(&mut sink, &value) {
+                Ok(n) => if sink.data != good || n != n_good { Ok(Some(format!("write_ser returned Ok({n}) but the sink holds {} bytes, an in-memory buffer holds {} ({n_good} reported)", sink.data.len(), good.len()))) } else { Ok(None) },
+                Err(_) => Ok(None),
+            }
+        }
         k => Err(format!("unknown scenario kind {k:?}")),
     }
 }
